@@ -29,7 +29,7 @@ func c18RunProg(prover *boc.MerkleProver, instrs []sx.V) sx.V {
 	if err != nil {
 		return sx.A("err")
 	}
-	return sx.Bytes(proof)
+	return rawBytes(proof)
 }
 
 func opProg(instrs []sx.V) sx.V { return sx.L(sx.A("prog"), sx.L(instrs...)) }
